@@ -249,6 +249,14 @@ Qed.
 Lemma affine_fit_forward x m s : affine_fit_y x m s = affine_forward_y x m s.
 Proof. reflexivity. Qed.
 
+(* a transform fitted twice is the transform of the LAST fit: nothing of the first fit (mean0, std0) survives, in either direction *)
+Lemma affine_refit_is_last_fit x m0 s0 m s :
+  affine_refit_forward_y x m0 s0 m s = affine_forward_y x m s
+  /\ affine_refit_forward_logj x m0 s0 m s = affine_forward_logj x m s
+  /\ affine_refit_inverse_y x m0 s0 m s = affine_inverse_y x m s
+  /\ affine_refit_inverse_logj x m0 s0 m s = affine_inverse_logj x m s.
+Proof. repeat split; reflexivity. Qed.
+
 Lemma affine_fwd_derive t m s : s <> 0 -> is_derive (fun t => affine_fwd t m s) t (/ s).
 Proof. intros Hs. unfold affine_fwd. auto_derive; [auto|]. field; auto. Qed.
 
